@@ -44,8 +44,10 @@ class ReadStream(Stream):
                 S[0] = m2j((M0 + M0.T) / 2)
             pins = rng.sample(range(n), rng.randint(0, n))
             u = [[k, [z.real, z.imag]] for k, z in ((k, rand_dyadic(rng, 16, 8)) for k in pins)]
+            ins = list(range(n))
+            rng.shuffle(ins)          # the order in which the pins enter the pin dictionary
             out.append({"idx": idx, "S": S, "u": u, "p": rng.randrange(n), "q": rng.randrange(n),
-                        "power": rng.random() < 0.5, "moded": rng.random() < 0.5})
+                        "power": rng.random() < 0.5, "moded": rng.random() < 0.5, "ins": ins})
         return out
 
     @staticmethod
@@ -60,7 +62,7 @@ class ReadStream(Stream):
     def _model(self, d):
         n = len(d["idx"])
         S = np.array([j2m(M) for M in d["S"]], complex).reshape(len(d["S"]), n, n)
-        pin_dic = {self._pin(d, k): d["idx"][k] for k in range(n)}
+        pin_dic = {self._pin(d, k): d["idx"][k] for k in d.get("ins", range(n))}
         # one swept parameter and one length-1 parameter (broadcast along the sweep in every table)
         params = {"wl": np.linspace(1.0, 2.0, len(d["S"])), "Tmp": np.array([0.375])}
         mod = lk.SolvedModel(pin_dic=pin_dic, param_dic=params, Smatrix=S)
@@ -135,10 +137,21 @@ class ReadStream(Stream):
                     np.array_equal(mod.get_data(p, q)["Amplitude"].to_numpy()[:1], np.array([before[0]])))
             except Exception:
                 same = False
+        # the named matrix S2PD(): rows and columns in alphabetical order of the printable names, labelled with them
+        order = sorted(range(n), key=lambda k: self._pn(d, k))
+        try:
+            if p != q and same:
+                mod = self._model(d)            # the labels of the first object were swapped above
+            tab = mod.S2PD()
+            if list(tab.index) != [self._pn(d, k) for k in order] or list(tab.columns) != list(tab.index):
+                raise ValueError("labels of S2PD")
+            s2 = "Obs " + clist(cvec([complex(z) for z in row], cf) for row in tab.to_numpy())
+        except Exception:
+            s2 = "Raised"
         Sm = clist(cmat(j2m(M).reshape(n, n), cq) for M in d["S"])
-        return ("{| rd_idx := %s; rd_S := %s; rd_u := %s; rd_pq := (%s, %s); rd_power := %s; rd_same := %s; "
+        return ("{| rd_sorted := %s; rd_s2pd := %s; rd_idx := %s; rd_S := %s; rd_u := %s; rd_pq := (%s, %s); rd_power := %s; rd_same := %s; "
                 "rd_out0 := %s; rd_full := %s; rd_data := %s; rd_AT0 := %s |}"
-                % (clist(cnat(i) for i in d["idx"]), Sm,
+                % (clist(cnat(k) for k in order), s2, clist(cnat(i) for i in d["idx"]), Sm,
                    clist("(%s, %s)" % (cnat(k), cq(complex(*v))) for k, v in d["u"]),
                    cnat(d["p"]), cnat(d["q"]), "true" if d["power"] else "false",
                    "true" if same else "false", l1[0], l1[1], l1[2], l1[3]))
@@ -253,7 +266,8 @@ if __name__ == "__main__":
              source_obligation("ReadoutSrc_C15", translate_readout.translate, "ReadoutSrcProof.v",
                                ["get_A_src_is_get_A", "get_T_src_is_get_T", "get_PH_arg_src_is_get_A",
                                 "get_output_src_is_get_output", "get_full_output_src_is_model", "get_data_src_is_data_table",
-                                "get_full_data_src_is_get_A", "param_columns_src_spec", "param_columns_src_one"])],
+                                "get_full_data_src_is_get_A", "param_columns_src_spec", "param_columns_src_one",
+                                "s2pd_src_is_get_A"])],
          level_text="props/C15.v; the tie builds random SolvedModels directly (size 1-4, sweep 1-4, non-symmetric matrices, "
                     "scrambled pin index maps), excites random pin subsets with complex amplitudes addressed by name and by Pin "
                     "object, and compares get_output, every row of get_full_output, get_data (T, Amplitude), get_A, get_T with "
